@@ -765,6 +765,51 @@ func rcvGenHistory(r *Rng, k int, seed uint64) *rHist {
 	return h
 }
 
+// rcvBusyPublisher: two other instances have a snapshot ready; every time the merge loop takes one from the
+// instance whose name sorts FIRST, that instance has published again and its downloader has delivered the new
+// snapshot before the loop asks again. The other instance's snapshot is still handed over eventually (the pick
+// among ready snapshots does not favour a name): 48 rounds.
+func rcvBusyPublisher(r *Rng, k int, seed uint64) *rHist {
+	h := rcvNewHist(k, seed, 0, 3, 3, false)
+	releaseAll := func() {
+		for i := 0; i < 8; i++ {
+			pend := h.pendingLoads()
+			if len(pend) == 0 {
+				return
+			}
+			h.release(pend[0], true)
+		}
+	}
+	h.publish(r, 1, true, "snap")
+	h.publish(r, 2, true, "snap")
+	h.list(true, false) // the start-up listing includes the own instance
+	releaseAll()
+	delivered2 := false
+	rounds := 0
+	for ; rounds < 48 && !delivered2 && h.bad == ""; rounds++ {
+		if !h.next() {
+			break
+		}
+		last := h.held.NameInfo.InstanceID
+		h.closeHeld()
+		if last == rcvInstName(2) {
+			delivered2 = true
+			break
+		}
+		h.publish(r, 1, true, "snap")
+		h.list(false, false)
+		releaseAll()
+	}
+	if !delivered2 && h.bad == "" {
+		h.oracle = append(h.oracle, OracleFailure{"C16", "not-starved-by-a-busy-publisher", fmt.Sprintf("instances i1 and i2 both have their newest snapshot downloaded and ready; i1 publishes again (and is downloaded again) every time the merge loop has taken its snapshot: in %d rounds Next() handed over i1's snapshot every time and never i2's", rounds), map[string]any{"history": strings.Join(h.log, " ; ")}})
+	}
+	h.oracleN++
+	h.drain()
+	h.finalOracles()
+	h.finish()
+	return h
+}
+
 func areaReceiver(r *Rng, n int, dir string) (*AreaOut, error) {
 	logrus.SetOutput(io.Discard)
 	rInitBlobs()
@@ -774,7 +819,12 @@ func areaReceiver(r *Rng, n int, dir string) (*AreaOut, error) {
 	nontriv := 0
 	nbad := 0
 	for k := 0; k < n && nbad < 3; k++ {
-		h := rcvGenHistory(r, k, r.s)
+		var h *rHist
+		if k == n/2 {
+			h = rcvBusyPublisher(r, k, r.s)
+		} else {
+			h = rcvGenHistory(r, k, r.s)
+		}
 		if h.bad != "" {
 			nbad++
 		}
@@ -801,6 +851,7 @@ func areaReceiver(r *Rng, n int, dir string) (*AreaOut, error) {
 		out.Oracle = append(out.Oracle, h.oracle...)
 		out.OracleN += h.oracleN
 	}
+	receiverReappear(out)
 	out.Cases = len(cases)
 	out.Distinct = nontriv
 	for i := 0; i < 3 && i < len(cases); i++ {
